@@ -16,7 +16,8 @@
 EXTENDS HFModel, Json
 
 CONSTANTS MaxPlace,      \* max number of modifier placements
-          MaxChan,       \* 1 or 2 channels
+          MaxChan,       \* number of channels available (1..3)
+          MaxSamp,       \* number of sample names available (2 or 3)
           BinChoices,    \* set of bin counts
           NPts,          \* number of parameter points per (spec, setting)
           Settings,      \* set of setting ids, see SettingOf
@@ -43,7 +44,7 @@ MOrd(m) == CASE m = "ha" -> 1 [] m = "na" -> 2 [] m = "hb" -> 3 [] m = "lumi" ->
              [] m = "nf" -> 6 [] m = "sf" -> 7 [] m = "nt" -> 8 [] m = "u" -> 9 [] m = "st" -> 10
 MName(m, c, s) == CASE m \in {"ha", "na"} -> 1 [] m = "hb" -> 2 [] m = "lumi" -> 3 [] m = "mu" -> 4
                     [] m = "nf" -> 5 [] m = "sf" -> 6 [] m = "nt" -> 7
-                    [] m = "u" -> 10 + 2 * (c - 1) + (s - 1) [] m = "st" -> 20 + c
+                    [] m = "u" -> 10 + 3 * (c - 1) + (s - 1) [] m = "st" -> 20 + c
 MType(m) == CASE m \in {"ha", "hb"} -> HISTOSYS [] m \in {"na", "nt"} -> NORMSYS [] m = "lumi" -> LUMI
               [] m \in {"mu", "nf"} -> NORMFACTOR [] m = "sf" -> SHAPEFACTOR [] m = "u" -> SHAPESYS
               [] m = "st" -> STATERROR
@@ -84,11 +85,11 @@ OverridePars(o, has(_)) ==      \* has(n): parameter name n occurs in the specif
              \o (IF has(7) THEN <<[NoCfg(7) EXCEPT !.bounds = << <<R(-3), R(3)>> >>, !.inits = <<R(-1)>>]>> ELSE <<>>)
              \o (IF has(5) THEN <<[NoCfg(5) EXCEPT !.fixed = <<TRUE>>, !.inits = <<RN(3, 2)>>]>> ELSE <<>>)
 MkSpec(nbv, pres, md) ==
-  LET cs == SortSet({c \in 1..2 : nbv[c] > 0})
+  LET cs == SortSet({c \in 1..MaxChan : nbv[c] > 0})
       AnyLumi == \E cell \in pres : "lumi" \in md[cell]
       HasMu   == \E cell \in pres : "mu" \in md[cell]
   IN [channels |-> [i \in 1..Len(cs) |->
-          LET c == cs[i]  ss == SortSet({s \in 1..2 : <<c, s>> \in pres}) IN
+          LET c == cs[i]  ss == SortSet({s \in 1..MaxSamp : <<c, s>> \in pres}) IN
           [name |-> c, samples |-> [j \in 1..Len(ss) |->
               [name |-> ss[j], data |-> [b \in 1..nbv[c] |-> Nom(c, ss[j], b)],
                mods |-> ModSeqOf(md[<<c, ss[j]>>], c, ss[j], nbv[c])]]]],
@@ -146,19 +147,19 @@ AuxData(sp, c) == LET a == AuxNominal(sp, c) IN [j \in 1..Len(a) |-> RAdd(a[j], 
 DataOf(sp, c) == MainData(c) \o AuxData(sp, c)
 
 -----------------------------------------------------------------------------
-Cells == (1..MaxChan) \X (1..2)
+Cells == (1..MaxChan) \X (1..MaxSamp)
 WFPlace(c, s, m) ==
   /\ <<c, s>> \in present
   /\ m \notin mods[<<c, s>>]
   \* a shapefactor may be shared only between channels of equal bin count
   /\ m = "sf" => \A cell \in present : "sf" \in mods[cell] => nb[cell[1]] = nb[c]
-PlaceKey(c, s, m) == (c * 2 + s) * 16 + MOrd(m)
+PlaceKey(c, s, m) == (c * 3 + s) * 16 + MOrd(m)
 
 Init ==
-  /\ nb \in [1..2 -> BinChoices \cup {0}]
-  /\ nb[1] > 0 /\ (MaxChan = 1 => nb[2] = 0)
+  /\ nb \in [1..MaxChan -> BinChoices \cup {0}]
+  /\ nb[1] > 0
   /\ present \in SUBSET Cells
-  /\ \A c \in 1..2 : (nb[c] > 0) <=> (\E s \in 1..2 : <<c, s>> \in present)
+  /\ \A c \in 1..MaxChan : (nb[c] > 0) <=> (\E s \in 1..MaxSamp : <<c, s>> \in present)
   /\ mods = [cell \in Cells |-> {}]
   /\ last = 0 /\ nplaced = 0 /\ phase = "edit"
   /\ spec = <<>> /\ cfg = <<>> /\ set = 0 /\ pt = 0 /\ out = <<>>
@@ -196,7 +197,7 @@ Eval(k) ==
              r2 |-> ImplRates(cfg, SettingOf(set), PointBatch(spec, cfg, k), 2)]
   /\ UNCHANGED <<nb, present, mods, last, nplaced, spec, cfg, set>>
 
-Next == \/ \E c \in 1..MaxChan, s \in 1..2, m \in MIds : AddMod(c, s, m)
+Next == \/ \E c \in 1..MaxChan, s \in 1..MaxSamp, m \in MIds : AddMod(c, s, m)
         \/ \E k \in Settings, o \in Overrides : Build(k, o)
         \/ \E k \in 0..(NPts - 1) : Eval(k)
 Spec == Init /\ [][Next]_vars
@@ -275,11 +276,11 @@ Case ==
        terms |-> DefTerms(spec, cfg, S, p1, 0, d) ]
 
 \* structural hash of the specification (all points and settings of one spec are kept together)
-SpecHash == LET w(cell) == cell[1] * 2 + cell[2]
+SpecHash == LET w(cell) == cell[1] * 3 + cell[2]
                 RECURSIVE HS(_)
                 HS(D) == IF D = {} THEN 0 ELSE LET m == CHOOSE m \in D : TRUE IN MOrd(m) * MOrd(m) + HS(D \ {m})
-            IN SumNat([i \in 1..4 |-> LET cell == <<((i - 1) \div 2) + 1, ((i - 1) % 2) + 1>> IN
+            IN SumNat([i \in 1..(MaxChan * MaxSamp) |-> LET cell == <<((i - 1) \div MaxSamp) + 1, ((i - 1) % MaxSamp) + 1>> IN
                           IF cell \in present THEN w(cell) * (11 + HS(mods[cell])) ELSE 0])
-               + 3 * nb[1] + 5 * nb[2]
+               + SumNat([c \in 1..MaxChan |-> (2 * c + 1) * nb[c]])
 Emit == (EmitCases /\ phase = "eval" /\ SpecHash % EmitMod = EmitRes) => PrintT(ToJson(Case))
 =============================================================================
